@@ -23,7 +23,7 @@ for d in sorted(glob.glob(os.path.join(V, 'seeded', 'C??-m?')) + glob.glob(os.pa
     name = os.path.basename(d)
     res = m.get('results_in_order') or (m.get('results_first_run', []) + m.get('results_after_strengthening', []))
     first = res[0] if res else ''
-    missed = 'exit=0' in first
+    missed = m['missed_at_first'] if 'missed_at_first' in m else ('exit=0' in first)
     caught = [r for r in res if 'exit=1' in r]
     def fmt(r):
         p = r.split()
